@@ -7,6 +7,7 @@ import Depccg.Print.Html
 import Depccg.GlueTree
 import Depccg.GlueRun
 import Depccg.Read.Deriv
+import Depccg.Read.Prolog
 
 namespace Depccg
 namespace OpsMore
@@ -22,6 +23,12 @@ def encDView : Read.DView → String
   | .leaf c w => "L " ++ encStr c ++ " " ++ encStr w
   | .un c y k => "U " ++ encStr c ++ " " ++ encStr y ++ " " ++ encDView k
   | .bin c y l r => "B " ++ encStr c ++ " " ++ encStr y ++ " " ++ encDView l ++ " " ++ encDView r
+
+/-- the view the Lean Prolog reader returns -/
+partial def encPView : Read.PView → String
+  | .leaf c fs => "L " ++ encStr c ++ " " ++ toString fs.length ++ String.join (fs.map fun f => " " ++ encStr f)
+  | .node f c ex kids => "N " ++ encStr f ++ " " ++ encStr c ++ " " ++ toString ex.length ++ String.join (ex.map fun e => " " ++ encStr e)
+      ++ " " ++ toString kids.length ++ String.join (kids.map fun k => " " ++ encPView k)
 
 def pScored : P (Tree × Str) := fun ts => do
   let (s, ts) ← pStr ts
@@ -75,6 +82,11 @@ def dispatch (op : String) (ts : List String) : Option String :=
       | _ => "bad-op")
   | "prolog_ja" => some (match OpsXml.pBatch ts with
       | some (b, []) => encExcept encStr (prologJa b)
+      | _ => "bad-op")
+  | "prolog_dec" => some (match pStr ts with
+      | some (s, []) => (match Read.decProlog s with
+        | some rs => "ok " ++ toString rs.length ++ String.join (rs.map fun (i, v) => " || " ++ toString i ++ " " ++ encPView v)
+        | none => "none")
       | _ => "bad-op")
   | "deriv_dec" => some (match pStr ts with
       | some (s, []) => (match Read.decDeriv s with | some v => "ok " ++ encDView v | none => "none")
